@@ -10,8 +10,10 @@ MODULE = 'Flowdyn.Props.C02'
 THEOREMS = ['Flowdyn.C02.' + t for t in ['conv_consistent', 'conv_mirror', 'conv_upwind_pos', 'conv_upwind_neg', 'burgers_consistent', 'burgers_mirror', 'burgers_upwind_pos', 'burgers_upwind_neg', 'swCentered_consistent', 'swCentered_mirror', 'eCentered_consistent', 'eCentered_mirror', 'eCenteredMassflow_consistent', 'eCenteredMassflow_mirror', 'swRusanov_consistent', 'swRusanov_mirror', 'swHll_consistent', 'swHll_mirror', 'swHll_upwind_right', 'swHll_upwind_left', 'eHlle_consistent', 'eHlle_mirror', 'eHlle_upwind_right', 'eHlle_upwind_left', 'eHllc_consistent', 'eHllc_mirror', 'eHllc_upwind_right', 'eHllc_upwind_left', 'e2Centered_consistent', 'e2Hlle_consistent', 'e2Centered_mirror_x', 'e2Centered_mirror_y', 'e2Hlle_mirror_x', 'e2Hlle_mirror_y', 'e2Hlle_transpose', 'e2Centered_transpose', 'e2Hlle_reduces_1d', 'e2Centered_reduces_1d']]
 AUDIT_IMPORTS = ['Flowdyn.Props.KernelsBridge', 'Flowdyn.Props.Kernels2DBridge']
 THEOREMS = THEOREMS + ['Flowdyn.GenK.%s_eq' % k for k in ['swCentered', 'swRusanov', 'swHll', 'eCentered', 'eCenteredMassflow', 'eHlle', 'eHllc', 'eRoe', 'convFlux']] + ['Flowdyn.GenK2.%s_eq' % k for k in ['e2Centered', 'e2Hlle']]
+import core as _core
+THEOREMS = THEOREMS + _core.theorems_in(['C02c.lean'], 'Flowdyn.C02')
 PARTIAL = {}
-LEVEL_NOTE = "flux kernels over the reals (Real.sqrt); hypotheses rho,p,h>0, gamma>1, g>0"
+LEVEL_NOTE = "flux kernels over the reals (Real.sqrt); hypotheses rho,p,h>0, gamma>1, g>0; 2D HLLE: upwind clause for any normal and any transverse velocity, orientation (flip) and rotation laws (C02c)"
 TOL = 1e-9
 
 
